@@ -1,0 +1,20 @@
+//go:build verif
+
+package quickfix
+
+import "io"
+
+// VerifParser gives the verification harness (/verif, area framer) access to the unexported stream parser.
+type VerifParser struct{ p *parser }
+
+// VerifNewParser wraps newParser.
+func VerifNewParser(r io.Reader) *VerifParser { return &VerifParser{p: newParser(r)} }
+
+// ReadMessage wraps parser.ReadMessage; the frame is returned as a copy of the bytes.Buffer content.
+func (v *VerifParser) ReadMessage() ([]byte, error) {
+	b, err := v.p.ReadMessage()
+	if err != nil {
+		return nil, err
+	}
+	return append([]byte(nil), b.Bytes()...), nil
+}
